@@ -240,3 +240,4 @@ pub proof fn lemma_mget_key<V>(m: Map<PathBuf, V>, k: PathBuf)
 pub proof fn lemma_mget_empty<V>(p: PathV)
     ensures mget(Map::<PathBuf, V>::empty(), p) is None
 { }
+#[verifier::external_body] pub fn vfmt() -> String { String::new() }    // R3: diagnostics text is opaque
